@@ -1582,6 +1582,16 @@ mainloop:
 		}
 	}
 
+	// When this lookup's own context ends, the select above can take the last
+	// exchange's error ahead of ctx.Done(). With nothing else to fall back on
+	// that is the request's expiry, not the authorities' failure: reporting it
+	// as errConnectionFailed would hand followers of a shared lookup a
+	// failure that is not theirs instead of letting them regroup.
+	if len(responseErrors) == 0 && len(configErrors) == 0 {
+		if ctxErr := contextutil.EffectiveError(ctx); ctxErr != nil {
+			return nil, ctxErr
+		}
+	}
 	return pickFallbackResponse(responseErrors, configErrors, fatalErrors)
 }
 
